@@ -336,10 +336,14 @@ func (e StdEng) denseConcat(a DenseTensor, axis int, Ts []DenseTensor) (DenseTen
 			maskedT = mt
 		}
 
-		err = assignArray(v, T)
-		if maskedT != nil {
-			maskedT.SetMask(Tmask) // the operand's mask was only set aside for the copy: put it back
-		}
+		err = func() error {
+			if maskedT != nil {
+				// the operand's mask was only set aside for the copy: put it back, also when the
+				// engine's copy panics
+				defer maskedT.SetMask(Tmask)
+			}
+			return assignArray(v, T)
+		}()
 		if err != nil {
 			return nil, errors.Wrap(err, "Unable to assignArray in denseConcat")
 		}
